@@ -46,7 +46,7 @@ def check_spec(spec, res, runner_name, mode):
                     return
                 # a suspending async processor may legitimately reorder events of concurrently running siblings:
                 # completeness is judged on the multiset for the async runner, on the exact sequence for the sync runner
-                same = (stream_signature(good.events) == full) if runner_name == "sync" else (sorted(stream_signature(good.events)) == sorted(full))
+                same = (stream_signature(good.events) == full) if runner_name == "sync" else (sorted(map(repr, stream_signature(good.events))) == sorted(map(repr, full)))
                 if not same:
                     res.fail(kind="oracle", function="EventDispatcher", what=f"with a processor failing at {what} {k} (async={async_proc}, registered first={bad_first}) the healthy processor received {len(good.events)} of {len(full)} events", runner=runner_name, replay=rep)
                     return
